@@ -96,7 +96,12 @@ def apply_inputs(plant, inp):
             else:
                 obj.full_pti_mode = np.array(d["full"], dtype=fl_dt)
             core.axis("full-pti-flags", fl_dt.__name__)
-            obj.set_power_input_from_output(arr(d["shaft"]))
+            if c["name"] in inp.get("pti_power_single", []) and len(set(d["shaft"])) == 1:
+                core.axis("pti_power", "one value")
+                obj.set_power_input_from_output(np.array(d["shaft"][:1], dtype=float))
+            else:
+                core.axis("pti_power", "series")
+                obj.set_power_input_from_output(arr(d["shaft"]))
     plant.mechanical.set_time_interval(np.array(inp["dt"], dtype=float), integration_method=IntegrationMethod.sum_with_time)
 
 
